@@ -52,12 +52,20 @@ LVS_PEER = r'''
 #d3: #site/"d3"/_ <= #c2
 #d4: #site/"d4"/_ <= #c3
 '''
+# two roots of trust that no name matches together: every anchor must be refused
+LVS_TWO = LVS_STRICT + '''#oproot: #site/"op"/#KEY
+#r1: #site/"r1"/_/#KEY <= #oproot
+'''
+# two roots of trust that every root-shaped name matches together
+LVS_TWIN = LVS_STRICT + '''#root2: #site/_/_/"self"/_
+#e1: #site/"e1"/_/#KEY <= #root2
+'''
 _checkers = {}
 
 
 def checker_for(sch):
     if sch not in _checkers:
-        _checkers[sch] = Checker(compile_lvs({'strict': LVS_STRICT, 'peer': LVS_PEER}[sch]), {})
+        _checkers[sch] = Checker(compile_lvs({'strict': LVS_STRICT, 'peer': LVS_PEER, 'two': LVS_TWO, 'twin': LVS_TWIN}[sch]), {})
     return _checkers[sch]
 
 
@@ -117,11 +125,15 @@ class Mat:
         self.sch = None
 
 
-def real_name(n, shape):
+def real_name(n, shape, twin_of=None):
+    """twin_of: n is another certificate (other issuer component) of the key NAME of certificate twin_of"""
     if shape == 'root':
         return enc.Name.from_str('/s/KEY/%s/self' % n)
+    if shape == 'oproot':
+        return enc.Name.from_str('/s/op/KEY/%s/self' % n)
     if shape in ('c1', 'c2', 'c3', 'x'):
-        return enc.Name.from_str('/s/%s/%s/KEY/%s/%s' % (shape, n, n, 'self' if n.startswith('R') else 'i'))
+        k = twin_of or n
+        return enc.Name.from_str('/s/%s/%s/KEY/%s/%s' % (shape, k, k, 'self' if n.startswith('R') else 'j' if twin_of else 'i'))
     if shape in ('d1', 'd2', 'd3', 'd4'):
         return enc.Name.from_str('/s/%s/%s' % (shape, n))
     raise tlc.MachineryError('unknown shape %r' % (shape,))
@@ -139,7 +151,7 @@ def materialise(world, kt, pool):
     for n, sh in shape.items():
         if sh == 'nil':
             continue
-        rn = real_name(n, sh)
+        rn = real_name(n, sh, dict(world.get('twin') or {}).get(n))
         m.name[n] = rn + [ver] if not sh.startswith('d') else rn
     key_ids = sorted(({c['key'] for c in certs.values()} | {c['sig'] for c in certs.values()} | {p['sig'] for p in pkts.values()})
                      - {'forged', 'digest', 'none'})
